@@ -192,3 +192,22 @@ Example values_example :
   let vals := [ {| v_start := 1; v_end := 3; v_bits := 1065353216 |}; {| v_start := 4; v_end := 6; v_bits := 1073741824 |} ] in
   wf_vals 10 vals /\ vob_fill 0 7 (clip_filter 0 7 vals) = [0; 1065353216; 1065353216; 0; 1073741824; 1073741824; 0].
 Proof. split; [repeat constructor; cbn; lia|vm_compute; reflexivity]. Qed.
+
+(* one output row per line of the BED file, in line order *)
+Theorem values_rows_in_order : forall q withnames bed rows,
+  values_over_bed q withnames bed = Ok rows <->
+  Forall2 (fun l r => vob_line q withnames (unique_names withnames bed) l = Ok r) (file_lines bed) rows.
+Proof.
+  intros q withnames bed. unfold values_over_bed.
+  generalize (unique_names withnames bed) as uniq. intros uniq.
+  induction (file_lines bed) as [|l ls IH]; intros rows.
+  - cbn [vob_rows]. split.
+    + intros H. injection H as <-. constructor.
+    + intros H. inversion H. reflexivity.
+  - cbn [vob_rows]. split.
+    + destruct (vob_line q withnames uniq l) as [a| | |] eqn:El; cbn [rbind]; try discriminate.
+      destruct (vob_rows q withnames uniq ls) as [b| | |] eqn:Er; cbn [rbind]; try discriminate.
+      intros H. injection H as <-. constructor; [exact El|]. apply IH. reflexivity.
+    + intros H. inversion H as [|? r ? rs Hl Hr]; subst. rewrite Hl. cbn [rbind].
+      rewrite (proj2 (IH rs) Hr). reflexivity.
+Qed.
